@@ -29,6 +29,10 @@ def configs(prop, tier):
     if prop == "C04":
         return [dict(MaxLen=L, Mixin='"msgpack"'), dict(MaxLen=L - 1, Mixin='"orjson"', KwFlags=True),
                 dict(MaxLen=L - 1, Mixin='"msgpack"', LazyInner=True)]       # the nested class's helper packers compiled at first use
+    if prop == "C03":
+        # what from_dict returns for a document does not depend on which dialects / formats decoded on the class before
+        # (the family has a union field whose member decoding is dialect dependent)
+        return [dict(MaxLen=L - 1), dict(MaxLen=L - 1, Mixin='"msgpack"')]
     if prop == "C01":
         # round trips ALONG histories: to_<format>(dialect=D) / to_dict(dialect=D) / from_* in every order on one class
         return [dict(MaxLen=L - 1, Mixin='"msgpack"')]
@@ -86,6 +90,8 @@ def run_into(rep, prop, tier, seed):
                 rep.nontrivial(hashlib.sha1(jkey([kw, b]).encode()).hexdigest())
         for m in agg["mism"]:
             ev_ = m["event"]
+            if prop == "C03" and ev_[2] != "from":
+                continue                      # C03 reads the decoding calls of the histories
             akey = (ev_[1], ev_[2], ev_[3], ev_[4], ev_[5]) if ev_[0] == "Call" else None
             rep.violation(m["clause"], {**m, "config": kw, "replay_module": "harness.checks.sys_props", "prop": prop,
                                         "diff": diff_paths(m["expected"], m["actual"]),
